@@ -129,6 +129,41 @@ func famClose(w *World) {
 		}
 		w.probe("C07.holder-planned")
 	}
+	if scnChance(1, 3) && victim.Opts.Relay == nil {
+		// the victim's own long OUTBOUND call keeps a connection open (past the "inbound
+		// drained" stage of its close) while the other side sends it new calls over that
+		// very connection
+		from := w.Nodes[(indexOf(w.Nodes, victim)+1)%nn]
+		warm := w.newCall(CallSpec{From: from, To: victim.HostPort, Service: victim.Service, Via: "direct", Timeout: 5 * time.Second, Rs2: -1, Rs3: -1})
+		hold := w.newCall(CallSpec{From: victim, To: from.HostPort, Service: from.Service, Via: "direct", Timeout: time.Duration(2000+scn(2000)) * w.Grid,
+			Delay: closeAt + time.Duration(300+scn(600))*w.Grid, Len3: scn(2000), Rs2: -1, Rs3: -1})
+		if hold.Spec.Timeout > maxTimeout {
+			maxTimeout = hold.Spec.Timeout
+		}
+		w.describe("outbound holder %s %s->%s delay=%v timeout=%v", hold.Spec.Tag, victim.Name, from.Name, hold.Spec.Delay, hold.Spec.Timeout)
+		warmed := false
+		fs = append(fs, func() { w.Call(warm); warmed = true; w.Call(hold) })
+		nr := 1 + scn(4)
+		for i := 0; i < nr; i++ {
+			r := w.newCall(CallSpec{From: from, To: victim.HostPort, Service: victim.Service, Via: "direct", Timeout: time.Duration(30+scn(150)) * w.Grid,
+				Len3: scn(3000), Rs2: -1, Rs3: -1})
+			if r.Spec.Timeout < 2*time.Millisecond {
+				r.Spec.Timeout = 2 * time.Millisecond
+			}
+			at := closeAt + time.Duration(scn(60)-2)*w.Grid
+			if at < 0 {
+				at = 0
+			}
+			w.describe("racer(outbound holder) %s at=%v timeout=%v", r.Spec.Tag, at, r.Spec.Timeout)
+			fs = append(fs, func() {
+				sleep(at)
+				if warmed {
+					w.Call(r)
+				}
+			})
+		}
+		w.probe("C07.outbound-holder-planned")
+	}
 	for k := 0; k < closers; k++ {
 		d := closeAt + time.Duration(scn(6)*k)*w.Grid
 		fs = append(fs, func() {
@@ -216,6 +251,13 @@ func (w *World) checkCloseOracles(v *Node) {
 		}
 		// excused: its own deadline, or the OTHER side going away first
 		if r.EndAt >= r.Deadline {
+			continue
+		}
+		if r.H.Entered && r.H.HasDeadline && r.EndAt >= r.H.Deadline {
+			// the ttl the request carried (the caller's remaining time cut down to whole
+			// milliseconds) had run out at the handler: that is the call's timeout, even if the
+			// caller's own clock had a fraction of a millisecond left
+			w.probe("C07.ttl-ran-out-at-handler-before-caller-deadline")
 			continue
 		}
 		if strings.HasPrefix(r.Spec.Via, "relay") && tchannel.GetSystemErrorCode(r.Err) == tchannel.ErrCodeTimeout {
@@ -352,14 +394,43 @@ func (w *World) checkCloseOracles(v *Node) {
 				w.probe("C07.request-dropped-without-reply")
 				why := ""
 				if v.ErrOnClosedConn[tf.F.ID] > 0 {
-					// attribution: the library itself gave up on the error frame
-					why = "; the node logged 'Could not send error frame on closed connection' for this id: its connection object was already in the closed state while its writer was still draining queued frames to a slow reader"
+					// attribution: the library itself gave up on the error frame. Was the connection
+					// merely draining (every call that used it had already ended at this node), or
+					// were calls still pending on it?
+					pending := 0
+					for _, o := range w.Calls {
+						if o == rec || !w.requestOnLink(o, l) {
+							continue
+						}
+						if o.Spec.From == v { // the node's own outbound call
+							if o.BeginEv != 0 && o.BeginEv < tf.REv && (!o.Done || o.EndEv > tf.REv) {
+								pending++
+							}
+						} else if o.H.Entered && o.H.Node == v.Name && o.H.EnterEv < tf.REv && (o.H.ExitEv == 0 || o.H.ExitEv > tf.REv) {
+							pending++ // a handler of the node still running
+						}
+					}
+					if pending == 0 {
+						why = "; the node logged 'Could not send error frame on closed connection' for this id and no call was pending on that connection any more: its connection object was already in the closed state while its writer was still draining queued frames to a slow reader"
+					} else {
+						why = fmt.Sprintf("; the node logged 'Could not send error frame on closed connection' for this id although %d call(s) were still pending on that connection", pending)
+					}
 				}
 				w.violate("C07", "request-dropped", "node %s read call request %s (id %d, link%d) at #%d, kept the connection up past the caller's deadline (%v) and never wrote a response or an error frame for it: the caller waited its full timeout (Close called #%d, returned #%d)%s",
 					v.Name, tag, tf.F.ID, l.ID, tf.REv, rec.Deadline, v.closeCalledEv, v.closeReturnedEv, why)
 			}
 		}
 	}
+}
+
+// requestOnLink: did call o's request travel on link l?
+func (w *World) requestOnLink(o *CallRec, l *Link) bool {
+	for _, m := range w.wireOr.reqByTag[o.Spec.Tag] {
+		if m.link == l {
+			return true
+		}
+	}
+	return false
 }
 
 func tagOfFrame(f *wire.Frame) string {
